@@ -118,4 +118,720 @@ theorem rep_noPanic (f : List UInt8 → Res Val) (h : ∀ inp s, f inp ≠ .pani
       · simp
       · simp
 
+/-! ### decoding never panics -/
+
+theorem readIntR_noPanic (inp : List UInt8) (k : Int → Option Val) (s : String) : readIntR inp k ≠ .panic s := by
+  unfold readIntR
+  split
+  · simp
+  · split <;> simp
+
+mutual
+theorem decM_noPanic : ∀ (t : MT) (inp : List UInt8) (s : String), decM t inp ≠ .panic s
+  | .int32 _ _, inp, s => by simp only [decM]; exact readIntR_noPanic _ _ _
+  | .boolean, inp, s => by simp only [decM]; exact readIntR_noPanic _ _ _
+  | .enum _ _ _, inp, s => by simp only [decM]; exact readIntR_noPanic _ _ _
+  | .flags _ _, inp, s => by simp only [decM]; exact readIntR_noPanic _ _ _
+  | .tick, inp, s => by simp only [decM]; exact readIntR_noPanic _ _ _
+  | .tuneParam, inp, s => by simp only [decM]; exact readIntR_noPanic _ _ _
+  | .string _, inp, s => by
+    simp only [decM]; split
+    · simp
+    · split <;> simp
+  | .int32String, inp, s => by
+    simp only [decM]; split
+    · simp
+    · split <;> simp
+  | .data, inp, s => by
+    simp only [decM]; split
+    · simp
+    · split
+      · simp
+      · split <;> simp
+  | .rest, inp, s => by simp [decM]
+  | .raw len, inp, s => by
+    simp only [decM, readRawR]
+    split
+    · simp
+    · rename_i h
+      have : (List.take len inp).length = len := by simp [List.length_take]; omega
+      simp [this]
+  | .beUint16, inp, s => by
+    simp only [decM, readRawR]
+    split
+    · simp
+    · rename_i h
+      match inp, h with
+      | b0 :: b1 :: rest, _ => simp
+      | [_], h => simp at h
+      | [], h => simp at h
+  | .uint8, inp, s => by
+    simp only [decM, readRawR]
+    split
+    · simp
+    · rename_i h
+      match inp, h with
+      | b0 :: rest, _ => simp
+      | [], h => simp at h
+  | .packedAddresses, inp, s => by
+    simp only [decM]
+    have : (inp.length - inp.length % 18) % 18 = 0 := by omega
+    simp [this]
+  | .serverinfoClient, inp, s => by simp [decM]
+  | .twString n, inp, s => by
+    simp only [decM]
+    split
+    · simp
+    · simp
+    · rename_i s' h
+      exact absurd h (rep_noPanic _ (fun i s => readIntR_noPanic _ _ _) _ _ _)
+  | .optional t, inp, s => by
+    simp only [decM]
+    split
+    · simp
+    · simp
+    · rename_i s' h
+      exact absurd h (decM_noPanic t inp s')
+  | .array n t, inp, s => by
+    simp only [decM]
+    split
+    · simp
+    · simp
+    · rename_i s' h
+      exact absurd h (rep_noPanic _ (fun i s => decM_noPanic t i s) _ _ _)
+  | .object ms, inp, s => by
+    simp only [decM]
+    split
+    · simp
+    · simp
+    · rename_i s' h
+      exact absurd h (decMs_noPanic ms inp s')
+theorem decMs_noPanic : ∀ (ms : ML) (inp : List UInt8) (s : String), decMs ms inp ≠ .panic s
+  | .nil, inp, s => by simp [decMs]
+  | .cons t ms, inp, s => by
+    simp only [decMs]
+    split
+    · rename_i s' h; exact absurd h (decM_noPanic t inp s')
+    · simp
+    · split
+      · rename_i s' h; exact absurd h (decMs_noPanic ms _ s')
+      · simp
+      · simp
+end
+
+/-! ### whatever decodes is well-typed -/
+
+theorem readIntR_ok {inp : List UInt8} {k : Int → Option Val} {x : Val} {r : List UInt8} {ws : List Warning}
+    (h : readIntR inp k = .ok x r ws) : ∃ v, inI32 v ∧ k v = some x := by
+  unfold readIntR at h
+  split at h
+  · simp at h
+  · rename_i v rest ws' hr
+    split at h
+    · rename_i x' hk
+      simp at h
+      exact ⟨v, readInt_inI32 hr, by rw [hk, h.1]⟩
+    · simp at h
+
+theorem parseI32_inI32 {s : List UInt8} {v : Int} (h : parseI32 s = some v) : inI32 v := by
+  unfold parseI32 at h
+  unfold inI32
+  split at h
+  · simp at h
+  · split at h
+    · split at h
+      · simp at h
+      · split at h
+        · split at h
+          · simp at h; omega
+          · simp at h
+        · simp at h
+    · split at h
+      · split at h
+        · simp at h
+        · split at h
+          · split at h
+            · simp at h; omega
+            · simp at h
+          · simp at h
+      · split at h
+        · split at h
+          · simp at h; omega
+          · simp at h
+        · simp at h
+
+mutual
+theorem decM_wt : ∀ (t : MT) (inp : List UInt8) (v : Val) (r : List UInt8) (ws : List Warning),
+    decM t inp = .ok v r ws → wtM t v = true
+  | .int32 min max, inp, v, r, ws, h => by
+    simp only [decM] at h
+    obtain ⟨x, hx, hk⟩ := readIntR_ok h
+    split at hk
+    · rename_i hc; simp at hk; subst hk; simp [wtM, hx, hc]
+    · simp at hk
+  | .boolean, inp, v, r, ws, h => by
+    simp only [decM] at h
+    obtain ⟨x, hx, hk⟩ := readIntR_ok h
+    split at hk
+    · simp at hk; subst hk; simp [wtM]
+    · simp at hk
+  | .enum _ lo n, inp, v, r, ws, h => by
+    simp only [decM] at h
+    obtain ⟨x, hx, hk⟩ := readIntR_ok h
+    split at hk
+    · rename_i hc; simp at hk; subst hk; simp [wtM, hx, hc]
+    · simp at hk
+  | .flags _ _, inp, v, r, ws, h => by
+    simp only [decM] at h
+    obtain ⟨x, hx, hk⟩ := readIntR_ok h
+    simp at hk; subst hk; simp [wtM, hx]
+  | .tick, inp, v, r, ws, h => by
+    simp only [decM] at h
+    obtain ⟨x, hx, hk⟩ := readIntR_ok h
+    simp at hk; subst hk; simp [wtM, hx]
+  | .tuneParam, inp, v, r, ws, h => by
+    simp only [decM] at h
+    obtain ⟨x, hx, hk⟩ := readIntR_ok h
+    simp at hk; subst hk; simp [wtM, hx]
+  | .string strict, inp, v, r, ws, h => by
+    simp only [decM] at h
+    split at h
+    · simp at h
+    · rename_i s rest hs
+      split at h
+      · simp at h
+      · rename_i hc
+        simp at h
+        rw [← h.1]
+        have := readString_noNul _ _ _ hs
+        simp only [wtM, this]
+        cases strict <;> simp_all
+  | .int32String, inp, v, r, ws, h => by
+    simp only [decM] at h
+    split at h
+    · simp at h
+    · split at h
+      · rename_i x hp
+        simp at h
+        rw [← h.1]
+        simp [wtM, parseI32_inI32 hp]
+      · simp at h
+  | .data, inp, v, r, ws, h => by
+    simp only [decM] at h
+    split at h
+    · simp at h
+    · rename_i x rest ws' hr
+      split at h
+      · simp at h
+      · split at h
+        · simp at h
+        · simp at h
+          rw [← h.1]
+          have hx := readInt_inI32 hr
+          unfold inI32 at hx
+          simp only [wtM, decide_eq_true_eq, List.length_take]
+          omega
+  | .rest, inp, v, r, ws, h => by simp [decM] at h; simp [← h.1, wtM]
+  | .raw len, inp, v, r, ws, h => by
+    simp only [decM, readRawR] at h
+    split at h
+    · simp at h
+    · split at h
+      · simp at h
+      · rename_i hl
+        simp at h
+        rw [← h.1]
+        simp only [wtM, decide_eq_true_eq]
+        simpa using hl
+  | .beUint16, inp, v, r, ws, h => by
+    simp only [decM, readRawR] at h
+    split at h
+    · simp at h
+    · split at h
+      · rename_i b0 b1 _
+        simp at h
+        rw [← h.1]
+        have h0 := UInt8.toNat_lt b0
+        have h1 := UInt8.toNat_lt b1
+        simp only [wtM, Bool.and_eq_true, decide_eq_true_eq]
+        omega
+      · simp at h
+  | .uint8, inp, v, r, ws, h => by
+    simp only [decM, readRawR] at h
+    split at h
+    · simp at h
+    · split at h
+      · rename_i b0 _
+        simp at h
+        rw [← h.1]
+        have h0 := UInt8.toNat_lt b0
+        simp only [wtM, Bool.and_eq_true, decide_eq_true_eq]
+        omega
+      · simp at h
+  | .packedAddresses, inp, v, r, ws, h => by
+    simp only [decM] at h
+    split at h
+    · simp at h
+    · rename_i hm
+      simp at h
+      rw [← h.1]
+      simp only [wtM, decide_eq_true_eq, List.length_take]
+      omega
+  | .serverinfoClient, inp, v, r, ws, h => by simp [decM] at h; simp [← h.1, wtM]
+  | .twString n, inp, v, r, ws, h => by
+    simp only [decM] at h
+    split at h
+    · rename_i vs r' ws' hr
+      simp at h
+      rw [← h.1]
+      have := rep_ok _ isI32 (fun inp v r ws hh => by
+        obtain ⟨x, hx, hk⟩ := readIntR_ok hh
+        simp at hk; subst hk; simp [isI32, hx]) _ _ _ _ _ hr
+      simp [wtM, this.1, this.2]
+    · simp at h
+    · simp at h
+  | .optional t, inp, v, r, ws, h => by
+    simp only [decM] at h
+    split at h
+    · rename_i x r' ws' hd
+      simp at h
+      rw [← h.1]
+      simp only [wtM]
+      exact decM_wt t inp x r' ws' hd
+    · simp at h; simp [← h.1, wtM]
+    · simp at h
+  | .array n t, inp, v, r, ws, h => by
+    simp only [decM] at h
+    split at h
+    · rename_i vs r' ws' hr
+      simp at h
+      rw [← h.1]
+      have := rep_ok _ (wtM t) (fun inp v r ws hh => decM_wt t inp v r ws hh) _ _ _ _ _ hr
+      simp [wtM, this.1, this.2]
+    · simp at h
+    · simp at h
+  | .object ms, inp, v, r, ws, h => by
+    simp only [decM] at h
+    split at h
+    · rename_i vs r' ws' hr
+      simp at h
+      rw [← h.1]
+      simp only [wtM]
+      exact decMs_wt ms inp vs r' ws' hr
+    · simp at h
+    · simp at h
+theorem decMs_wt : ∀ (ms : ML) (inp : List UInt8) (vs : VL) (r : List UInt8) (ws : List Warning),
+    decMs ms inp = .ok vs r ws → wtMs ms vs = true
+  | .nil, inp, vs, r, ws, h => by simp [decMs] at h; simp [← h.1, wtMs]
+  | .cons t ms, inp, vs, r, ws, h => by
+    simp only [decMs] at h
+    split at h
+    · simp at h
+    · simp at h
+    · rename_i v r1 ws1 h1
+      split at h
+      · simp at h
+      · simp at h
+      · rename_i vs' r2 ws2 h2
+        simp at h
+        rw [← h.1]
+        simp [wtMs, decM_wt t _ _ _ _ h1, decMs_wt ms _ _ _ _ h2]
+end
+
+/-! ### decimal strings -/
+
+theorem ofNat_toNat_small {n : Nat} (h : n < 256) : (UInt8.ofNat n).toNat = n := by
+  simp [UInt8.toNat_ofNat']; omega
+
+theorem parseDigits_digit (d : Nat) (hd : d < 10) (tail : List UInt8) (acc : Nat) :
+    parseDigits (UInt8.ofNat (48 + d) :: tail) acc = parseDigits tail (acc * 10 + d) := by
+  have h := ofNat_toNat_small (n := 48 + d) (by omega)
+  simp only [parseDigits, isDigit, h]
+  have : (decide (48 ≤ 48 + d) && decide (48 + d ≤ 57)) = true := by simp; omega
+  rw [if_pos this, Nat.add_sub_cancel_left]
+
+theorem parseDigits_decDigits : ∀ (f n : Nat) (tail : List UInt8) (acc : Nat), n < 10 ^ (f + 1) →
+    parseDigits (decDigits f n ++ tail) acc = parseDigits tail (acc * 10 ^ (decDigits f n).length + n) := by
+  intro f
+  induction f with
+  | zero =>
+    intro n tail acc hn
+    have hn' : n < 10 := by simpa using hn
+    have : n % 10 = n := Nat.mod_eq_of_lt hn'
+    simp only [decDigits, this, List.singleton_append, List.length_singleton, Nat.pow_one]
+    exact parseDigits_digit n hn' tail acc
+  | succ f ih =>
+    intro n tail acc hn
+    simp only [decDigits]
+    split
+    · rename_i hn'
+      simp only [List.singleton_append, List.length_singleton, Nat.pow_one]
+      exact parseDigits_digit n hn' tail acc
+    · have hq : n / 10 < 10 ^ (f + 1) := by
+        have : 10 ^ (f + 1 + 1) = 10 ^ (f + 1) * 10 := Nat.pow_succ ..
+        omega
+      rw [List.append_assoc, ih (n / 10) _ acc hq]
+      simp only [List.singleton_append, List.length_append, List.length_singleton]
+      rw [parseDigits_digit (n % 10) (Nat.mod_lt _ (by omega)) tail]
+      congr 1
+      rw [Nat.pow_succ]
+      have : (acc * 10 ^ (decDigits f (n / 10)).length + n / 10) * 10 = acc * 10 ^ (decDigits f (n / 10)).length * 10 + (n / 10) * 10 := by
+        rw [Nat.add_mul]
+      rw [this, Nat.mul_assoc]
+      omega
+
+theorem decDigits_ne_nil (f n : Nat) : decDigits f n ≠ [] := by
+  cases f with
+  | zero => simp [decDigits]
+  | succ f => simp only [decDigits]; split <;> simp
+
+theorem decDigits_isDigit : ∀ (f n : Nat), ∀ b ∈ decDigits f n, 48 ≤ b.toNat ∧ b.toNat ≤ 57 := by
+  intro f
+  induction f with
+  | zero =>
+    intro n b hb
+    simp only [decDigits, List.mem_singleton] at hb
+    subst hb
+    rw [ofNat_toNat_small (by omega)]; omega
+  | succ f ih =>
+    intro n b hb
+    simp only [decDigits] at hb
+    split at hb
+    · simp only [List.mem_singleton] at hb; subst hb; rw [ofNat_toNat_small (by omega)]; omega
+    · simp only [List.mem_append, List.mem_singleton] at hb
+      rcases hb with hb | hb
+      · exact ih _ _ hb
+      · subst hb; rw [ofNat_toNat_small (by omega)]; omega
+
+theorem parseDigits_decDigits' (n : Nat) (hn : n < 10 ^ 11) : parseDigits (decDigits 10 n) 0 = some n := by
+  have := parseDigits_decDigits 10 n [] 0 hn
+  simpa [parseDigits] using this
+
+theorem hasNul_stringFromInt (v : Int) : hasNul (stringFromInt v) = false := by
+  unfold stringFromInt hasNul
+  split
+  · simp only [List.any_cons, Bool.or_eq_false_iff, List.any_eq_false]
+    refine ⟨by decide, ?_⟩
+    intro b hb
+    have := decDigits_isDigit _ _ b hb
+    intro h0; simp at h0; subst h0; simp at this
+  · simp only [List.any_eq_false]
+    intro b hb
+    have := decDigits_isDigit _ _ b hb
+    intro h0; simp at h0; subst h0; simp at this
+
+theorem parseI32_stringFromInt (v : Int) (h : inI32 v) : parseI32 (stringFromInt v) = some v := by
+  unfold inI32 at h
+  unfold stringFromInt
+  split
+  · rename_i hneg
+    have hn : (-v).toNat < 10 ^ 11 := by omega
+    have hne := decDigits_ne_nil 10 (-v).toNat
+    simp only [parseI32]
+    simp only [if_true, parseDigits_decDigits' _ hn]
+    have : (decDigits 10 (-v).toNat).isEmpty = false := by
+      cases hd : decDigits 10 (-v).toNat with
+      | nil => exact absurd hd hne
+      | cons _ _ => rfl
+    simp only [this]
+    have h2 : (-v).toNat ≤ 2 ^ 31 := by omega
+    simp [h2]
+    omega
+  · rename_i hpos
+    have hn : v.toNat < 10 ^ 11 := by omega
+    have hne := decDigits_ne_nil 10 v.toNat
+    cases hd : decDigits 10 v.toNat with
+    | nil => exact absurd hd hne
+    | cons c rest =>
+      have hc := decDigits_isDigit 10 v.toNat c (by rw [hd]; simp)
+      have hc45 : c ≠ 45 := by intro h0; subst h0; simp at hc
+      have hc43 : c ≠ 43 := by intro h0; subst h0; simp at hc
+      simp only [parseI32, hc45, hc43, if_false]
+      rw [← hd, parseDigits_decDigits' _ hn]
+      have h2 : v.toNat < 2 ^ 31 := by omega
+      simp [h2]
+      omega
+
+
+/-! ### encode then decode -/
+
+
+theorem readIntR_writeInt (x : Int) (hi : inI32 x) (rest : List UInt8) (k : Int → Option Val) (y : Val)
+    (hk : k x = some y) : readIntR (writeInt x ++ rest) k = .ok y rest [] := by
+  simp [readIntR, readInt_writeInt x hi rest, hk]
+
+/-- what the member round-trip lemma states for one member type and value -/
+def RoundTrips (t : MT) (v : Val) : Prop :=
+  ∃ bs, encM t v = .ok bs ∧ ∀ rest, (greedy t = true → rest = []) → decM t (bs ++ rest) = .ok v rest []
+
+theorem optInnerOk_wf (t : MT) (h : optInnerOk t = true) : wfM t = true ∧ greedy t = false := by
+  cases t with
+  | int32 a b => cases a <;> cases b <;> simp_all [optInnerOk, wfM, greedy]
+  | string s => cases s <;> simp_all [optInnerOk, wfM, greedy]
+  | flags _ _ => simp [wfM, greedy]
+  | data => simp [wfM, greedy]
+  | _ => simp [optInnerOk] at h
+
+theorem noneThenSome_allTrue : ∀ (l : List Bool), (∀ b ∈ l, b = true) → noneThenSome l = false
+  | [], _ => rfl
+  | [_], _ => rfl
+  | a :: b :: rest, h => by
+    have ha : a = true := h a (by simp)
+    have := noneThenSome_allTrue (b :: rest) (fun x hx => h x (by simp [hx]))
+    simp [noneThenSome, ha, this]
+
+theorem optFlags_present : ∀ (ms : ML) (vs : VL), presentL vs = true → ∀ b ∈ optFlags ms vs, b = true
+  | .nil, vs, _, b, hb => by cases vs <;> simp [optFlags] at hb
+  | .cons t ms, .nil, _, b, hb => by cases t <;> simp [optFlags] at hb
+  | .cons t ms, .cons v vs, hp, b, hb => by
+    simp only [presentL, Bool.and_eq_true] at hp
+    have ih := optFlags_present ms vs hp.2
+    cases t with
+    | optional t' =>
+      simp only [optFlags, List.mem_cons] at hb
+      rcases hb with hb | hb
+      · subst hb
+        cases v <;> simp_all [presentV]
+      · exact ih b hb
+    | _ => simp only [optFlags] at hb; exact ih b hb
+
+theorem optGuard_present (ms : ML) (vs : VL) (hp : presentL vs = true) : noneThenSome (optFlags ms vs) = false :=
+  noneThenSome_allTrue _ (optFlags_present ms vs hp)
+
+theorem VL.all_and (p q : Val → Bool) : ∀ (vs : VL), VL.all p vs = true → VL.all q vs = true →
+    VL.all (fun v => p v && q v) vs = true
+  | .nil, _, _ => rfl
+  | .cons v vs, hp, hq => by
+    simp only [VL.all, Bool.and_eq_true] at hp hq ⊢
+    exact ⟨⟨hp.1, hq.1⟩, VL.all_and p q vs hp.2 hq.2⟩
+
+theorem presentL_all : ∀ (vs : VL), presentL vs = true → VL.all presentV vs = true
+  | .nil, _ => rfl
+  | .cons v vs, h => by
+    simp only [presentL, Bool.and_eq_true] at h
+    simp [VL.all, h.1, presentL_all vs h.2]
+
+theorem encList_ok (g : Val → Enc) (p : Val → Bool) (h : ∀ v, p v = true → ∃ bs, g v = .ok bs) :
+    ∀ (vs : VL), VL.all p vs = true → ∃ bs, encList g vs = .ok bs
+  | .nil, _ => ⟨[], rfl⟩
+  | .cons v vs, hp => by
+    simp only [VL.all, Bool.and_eq_true] at hp
+    obtain ⟨b1, h1⟩ := h v hp.1
+    obtain ⟨b2, h2⟩ := encList_ok g p h vs hp.2
+    exact ⟨b1 ++ b2, by simp [encList, h1, h2, Enc.seq]⟩
+
+mutual
+theorem decM_encM : ∀ (t : MT) (v : Val), wfM t = true → wtM t v = true → presentV v = true → RoundTrips t v
+  | .int32 min max, v, hwf, hwt, hp => by
+    cases v with
+    | int x =>
+      simp only [wtM, Bool.and_eq_true, decide_eq_true_eq] at hwt
+      refine ⟨writeInt x, by simp [encM, hwt.1, hwt.2], fun rest _ => ?_⟩
+      simp only [decM]
+      exact readIntR_writeInt x hwt.1 rest _ _ (by simp [hwt.2])
+    | _ => simp [wtM] at hwt
+  | .boolean, v, hwf, hwt, hp => by
+    cases v with
+    | bool b =>
+      refine ⟨writeInt (if b then 1 else 0), by simp [encM], fun rest _ => ?_⟩
+      simp only [decM]
+      refine readIntR_writeInt _ (by cases b <;> decide) rest _ _ ?_
+      cases b <;> simp [checkRange]
+    | _ => simp [wtM] at hwt
+  | .enum _ lo n, v, hwf, hwt, hp => by
+    cases v with
+    | int x =>
+      simp only [wtM, Bool.and_eq_true, decide_eq_true_eq] at hwt
+      refine ⟨writeInt x, by simp [encM, hwt.1, hwt.2], fun rest _ => ?_⟩
+      simp only [decM]
+      exact readIntR_writeInt x hwt.1 rest _ _ (by simp [hwt.2])
+    | _ => simp [wtM] at hwt
+  | .flags _ _, v, hwf, hwt, hp => by
+    cases v with
+    | int x =>
+      simp only [wtM, decide_eq_true_eq] at hwt
+      refine ⟨writeInt x, by simp [encM, encInt, hwt], fun rest _ => ?_⟩
+      simp only [decM]
+      exact readIntR_writeInt x hwt rest _ _ rfl
+    | _ => simp [wtM] at hwt
+  | .tick, v, hwf, hwt, hp => by
+    cases v with
+    | int x =>
+      simp only [wtM, decide_eq_true_eq] at hwt
+      refine ⟨writeInt x, by simp [encM, encInt, hwt], fun rest _ => ?_⟩
+      simp only [decM]
+      exact readIntR_writeInt x hwt rest _ _ rfl
+    | _ => simp [wtM] at hwt
+  | .tuneParam, v, hwf, hwt, hp => by
+    cases v with
+    | int x =>
+      simp only [wtM, decide_eq_true_eq] at hwt
+      refine ⟨writeInt x, by simp [encM, encInt, hwt], fun rest _ => ?_⟩
+      simp only [decM]
+      exact readIntR_writeInt x hwt rest _ _ rfl
+    | _ => simp [wtM] at hwt
+  | .string strict, v, hwf, hwt, hp => by
+    cases v with
+    | bytes s =>
+      simp only [wtM, Bool.and_eq_true, Bool.not_eq_true'] at hwt
+      refine ⟨s ++ [0], by simp [encM, hwt.1, hwt.2], fun rest _ => ?_⟩
+      simp only [decM, List.append_assoc, List.singleton_append, readString_append s hwt.1 rest, hwt.2]
+      simp
+    | _ => simp [wtM] at hwt
+  | .int32String, v, hwf, hwt, hp => by
+    cases v with
+    | int x =>
+      simp only [wtM, decide_eq_true_eq] at hwt
+      refine ⟨stringFromInt x ++ [0], by simp [encM, hwt], fun rest _ => ?_⟩
+      simp only [decM, List.append_assoc, List.singleton_append,
+        readString_append _ (hasNul_stringFromInt x) rest, parseI32_stringFromInt x hwt]
+    | _ => simp [wtM] at hwt
+  | .data, v, hwf, hwt, hp => by
+    cases v with
+    | bytes d =>
+      simp only [wtM, decide_eq_true_eq] at hwt
+      refine ⟨writeInt d.length ++ d, by simp [encM, hwt], fun rest _ => ?_⟩
+      have hi : inI32 (d.length : Int) := by unfold inI32; omega
+      simp only [decM, List.append_assoc, readInt_writeInt _ hi (d ++ rest)]
+      simp
+      split
+      · omega
+      · split
+        · omega
+        · rfl
+    | _ => simp [wtM] at hwt
+  | .rest, v, hwf, hwt, hp => by
+    cases v with
+    | bytes d =>
+      refine ⟨d, by simp [encM], fun rest hg => ?_⟩
+      have := hg rfl
+      subst this
+      simp [decM]
+    | _ => simp [wtM] at hwt
+  | .raw len, v, hwf, hwt, hp => by
+    cases v with
+    | bytes d =>
+      simp only [wtM, decide_eq_true_eq] at hwt
+      refine ⟨d, by simp [encM, hwt], fun rest _ => ?_⟩
+      subst hwt
+      simp [decM, readRawR]
+    | _ => simp [wtM] at hwt
+  | .beUint16, v, hwf, hwt, hp => by
+    cases v with
+    | int x =>
+      simp only [wtM, Bool.and_eq_true, decide_eq_true_eq] at hwt
+      refine ⟨_, by simp only [encM, hwt.1, hwt.2, and_self, if_true]; rfl, fun rest _ => ?_⟩
+      have h1 := ofNat_toNat_small (n := x.toNat / 256) (by omega)
+      have h2 := ofNat_toNat_small (n := x.toNat % 256) (by omega)
+      have key : ∀ (e : Int), e = x → Res.ok (Val.int e) rest [] = Res.ok (Val.int x) rest ([] : List Warning) := by
+        intro e he; rw [he]
+      have hlen : ¬ ((UInt8.ofNat (x.toNat / 256) :: UInt8.ofNat (x.toNat % 256) :: rest).length < 2) := by simp
+      simp only [decM, readRawR, List.cons_append, List.nil_append, if_neg hlen, List.take, h1, h2, List.drop]
+      apply key; omega
+    | _ => simp [wtM] at hwt
+  | .uint8, v, hwf, hwt, hp => by
+    cases v with
+    | int x =>
+      simp only [wtM, Bool.and_eq_true, decide_eq_true_eq] at hwt
+      refine ⟨_, by simp only [encM, hwt.1, hwt.2, and_self, if_true]; rfl, fun rest _ => ?_⟩
+      have h1 := ofNat_toNat_small (n := x.toNat) (by omega)
+      have key : ∀ (e : Int), e = x → Res.ok (Val.int e) rest [] = Res.ok (Val.int x) rest ([] : List Warning) := by
+        intro e he; rw [he]
+      have hlen : ¬ ((UInt8.ofNat x.toNat :: rest).length < 1) := by simp
+      simp only [decM, readRawR, List.cons_append, List.nil_append, if_neg hlen, List.take, h1, List.drop]
+      apply key; omega
+    | _ => simp [wtM] at hwt
+  | .packedAddresses, v, hwf, hwt, hp => by
+    cases v with
+    | bytes d =>
+      simp only [wtM, decide_eq_true_eq] at hwt
+      refine ⟨d, by simp [encM, hwt], fun rest hg => ?_⟩
+      have := hg rfl
+      subst this
+      simp [decM, hwt]
+    | _ => simp [wtM] at hwt
+  | .serverinfoClient, v, hwf, hwt, hp => by
+    cases v with
+    | bytes d =>
+      refine ⟨d, by simp [encM], fun rest hg => ?_⟩
+      have := hg rfl
+      subst this
+      simp [decM]
+    | _ => simp [wtM] at hwt
+  | .twString n, v, hwf, hwt, hp => by simp [wfM] at hwf
+  | .optional t, v, hwf, hwt, hp => by
+    cases v with
+    | some x =>
+      simp only [wfM] at hwf
+      simp only [wtM] at hwt
+      simp only [presentV] at hp
+      have hwf' : wfM t = true := (optInnerOk_wf t hwf).1
+      have hng : greedy t = false := (optInnerOk_wf t hwf).2
+      obtain ⟨bs, he, hd⟩ := decM_encM t x hwf' hwt hp
+      refine ⟨bs, by simp [encM, he], fun rest _ => ?_⟩
+      simp [decM, hd rest (by simp [hng])]
+    | none => simp [presentV] at hp
+    | _ => simp [wtM] at hwt
+  | .array n t, v, hwf, hwt, hp => by
+    cases v with
+    | list vs =>
+      simp only [wfM, Bool.and_eq_true, Bool.not_eq_true'] at hwf
+      simp only [wtM, Bool.and_eq_true, decide_eq_true_eq] at hwt
+      simp only [presentV] at hp
+      have hall := VL.all_and (wtM t) presentV vs hwt.2 (presentL_all vs hp)
+      have hstep : ∀ v, (wtM t v && presentV v) = true → RoundTrips t v := by
+        intro v hv
+        simp only [Bool.and_eq_true] at hv
+        exact decM_encM t v hwf.1.1 hv.1 hv.2
+      obtain ⟨bs, he⟩ := encList_ok (encM t) _ (fun v hv => (hstep v hv).imp fun _ h => h.1) vs hall
+      refine ⟨bs, by simp [encM, hwt.1, he], fun rest _ => ?_⟩
+      have := rep_encList (decM t) (encM t) _ (fun v b r hv hb => by
+        obtain ⟨b', he', hd'⟩ := hstep v hv
+        rw [he'] at hb
+        cases hb
+        exact hd' r (by simp [hwf.1.2])) vs bs rest hall he
+      rw [hwt.1] at this
+      simp [decM, this]
+    | _ => simp [wtM] at hwt
+  | .object ms, v, hwf, hwt, hp => by
+    cases v with
+    | list vs =>
+      simp only [wfM] at hwf
+      simp only [wtM] at hwt
+      simp only [presentV] at hp
+      obtain ⟨bs, he, hd⟩ := decMs_encMs ms vs hwf hwt hp
+      refine ⟨bs, by simp [encM, he, guardWrap, optGuard, optGuard_present ms vs hp], fun rest hg => ?_⟩
+      have := hg rfl
+      subst this
+      simp [decM, hd]
+    | _ => simp [wtM] at hwt
+theorem decMs_encMs : ∀ (ms : ML) (vs : VL), wfMs ms = true → wtMs ms vs = true → presentL vs = true →
+    ∃ bs, encMs ms vs = .ok bs ∧ decMs ms bs = .ok vs [] []
+  | .nil, vs, hwf, hwt, hp => by
+    cases vs with
+    | nil => exact ⟨[], by simp [encMs], by simp [decMs]⟩
+    | cons _ _ => simp [wtMs] at hwt
+  | .cons t ms, vs, hwf, hwt, hp => by
+    cases vs with
+    | nil => simp [wtMs] at hwt
+    | cons v vs =>
+      simp only [wfMs, Bool.and_eq_true, Bool.or_eq_true, Bool.not_eq_true'] at hwf
+      simp only [wtMs, Bool.and_eq_true] at hwt
+      simp only [presentL, Bool.and_eq_true] at hp
+      obtain ⟨b1, he1, hd1⟩ := decM_encM t v hwf.1.1 hwt.1 hp.1
+      obtain ⟨b2, he2, hd2⟩ := decMs_encMs ms vs hwf.2 hwt.2 hp.2
+      refine ⟨b1 ++ b2, by simp [encMs, he1, he2, Enc.seq], ?_⟩
+      have hg : greedy t = true → b2 = [] := by
+        intro hg
+        rcases hwf.1.2 with hnil | hng
+        · cases ms with
+          | nil =>
+            cases vs with
+            | nil => simp [encMs] at he2; exact he2
+            | cons _ _ => simp [wtMs] at hwt
+          | cons _ _ => simp [ML.isNil] at hnil
+        · rw [hg] at hng; simp at hng
+      simp [decMs, hd1 b2 hg, hd2]
+end
+
 end Tw.Gamenet
